@@ -351,7 +351,7 @@ def run(res, tier, seed, shard, nshards):
                     res.count("sweep_preemptions_fired")
             res.sample({"scenario": sc["name"], "sweep_points": npts, "arm_at": arm_at}, cap=6)
         else:
-            n = 60 if quick else 1500
+            n = 60 if quick else 12000
             for i in range(n):
                 st = sched.RandomStrategy((seed << 16) ^ (ji << 10) ^ i, p_switch=0.3, line_p=0.01)
                 run_scenario(res, W, sc, st, f"random#{i}", with_second=False, line_points=True, closer_at=1.0)
